@@ -7,7 +7,10 @@ from .common import *
 
 def gen(rng, i):
     domain = i % 4 == 3
-    c = gen_problem(rng, fail_below=(0.0 if domain else None), dirty_fail=(i % 8 == 7), family=(rng.choice(SCALABLE) if i % 6 == 5 else None))
+    rd = i % 6 == 3 and not domain
+    c = gen_problem(rng, fail_below=(0.0 if domain else None), dirty_fail=(i % 8 == 7),
+                    family=(rng.choice(SCALABLE) if i % 6 == 5 else rng.choice(list(RANKDEF)) if rd else None),
+                    eps=(rng.choice([1e-6, 1e-5, -1e-6]) if rd or i % 6 == 1 else None))
     P = c["meta"]["P"]
     lo, hi = c["meta"]["range"]
     sc = c["scalar"]
@@ -126,6 +129,16 @@ def main(tier, seed, replay=None):
             if d:
                 run.violation("history: " + d, {"case": c, "implementation": r})
     nok, nprov = hist.evaluate(run, "C10", cases, results, what="history", classify=classify)
+    # release profile: whatever it shows differently from the dev profile goes through the same judgement
+    extra = release_differences("scenario", cases, results, workdir, timeout_ms=10000)
+    if extra:
+        for c, r in extra:
+            if r.get("panic") is None and not r.get("timeout") and r.get("head", {}).get("build") == "ok":
+                d = repeated_queries_identical(c, r) or shapes_ok(c, r)
+                if d:
+                    run.violation("history (release profile): " + d, {"case": c, "implementation": r, "profile": "release"})
+        hist.evaluate(run, "C10", [c for c, r in extra], [r for c, r in extra], what="history (release profile)", classify=classify)
+    run.coverage["release_profile_cases_differing_from_dev"] = len(extra)
     run.coverage.update({
         "evaluations": len(cases), "distinct_nontrivial": len(set(json.dumps([c["model"], c["build"], c["ops"]], sort_keys=True) for c in cases)),
         "rule": "%d shape cases (every N in 1..6 x S in 1..3 over models with M = 2,3,3,4 and P = 1,2,3,2: builder-made, so the "
